@@ -2066,3 +2066,49 @@ func fieldsRead(v ssa.Value, depth int) map[string]bool {
 	walk(v, depth)
 	return out
 }
+
+// ruleOptionSetters: the functional options are named after the configuration field they set (WithConnPingInterval
+// sets ConnConfig.PingInterval). An option that stores into a sibling field of the same type, or stores nothing,
+// silently configures something else than the application asked for.
+func ruleOptionSetters(r *Run, id string, fileSuffix string) {
+	r.Begin(id, "options set the field they are named after: every exported With… function declared in "+fileSuffix+" whose closure stores into configuration fields stores at least one field, and the name of every stored field occurs in the function's name", 5)
+	p := r.P
+	for _, fn := range p.Funcs {
+		if fnPkgPath(fn) != modPath+"/iscp" || fn.Parent() != nil || fn.Object() == nil || !fn.Object().Exported() || !strings.HasPrefix(fn.Name(), "With") || fn.Signature.Recv() != nil {
+			continue
+		}
+		if !strings.HasSuffix(declFile(p, fn), fileSuffix) {
+			continue
+		}
+		name := fnName(fn)
+		var fields []string
+		withAnon(fn, func(f *ssa.Function) {
+			allInstrs(f, func(ins ssa.Instruction) {
+				st, ok := ins.(*ssa.Store)
+				if !ok {
+					return
+				}
+				fa, isFA := st.Addr.(*ssa.FieldAddr)
+				if !isFA {
+					return
+				}
+				if _, isParam := fa.X.(*ssa.Parameter); !isParam {
+					return
+				}
+				if fld := fieldOf(fa.X.Type(), fa.Field); fld != nil {
+					fields = append(fields, canon(fld))
+				}
+			})
+		})
+		lower := strings.ToLower(canon(fn.Object()))
+		okAll := len(fields) > 0
+		var odd []string
+		for _, f := range fields {
+			if !strings.Contains(lower, strings.ToLower(f)) && !strings.Contains(lower, strings.ToLower(strings.TrimSuffix(f, "s"))) && !(strings.HasSuffix(f, "Config") && strings.Contains(lower, strings.ToLower(strings.TrimSuffix(f, "Config")))) {
+				okAll = false
+				odd = append(odd, f)
+			}
+		}
+		r.Check(name+" sets its field", okAll, p.pos(fn.Pos()), name, fmt.Sprintf("fields stored by the option: %v; not named in the option's name: %v", fields, odd))
+	}
+}
